@@ -1,7 +1,216 @@
 import ScVerif.Base.Line
-/-! Driver handler for C16 (stub: replaced by the property's owner). -/
-namespace ScVerif.C16
+import ScVerif.C16.Tolerance
+import ScVerif.C16.Pull
+/-!
+Driver handler for C16.  Parsing/printing glue only (trusted base of the correspondence check).
 
-def handle (_toks : List String) : String := "!bad-op"
+Tree token (no spaces, atoms separated by `,`, prefix notation):
+```
+val   ::= b0 | b1 | e<int> | i<int> | u<nat> | f<F> | s<hex> | y<hex>
+        | M<0|1>,<type>,<nfields>,field*,<nunknown>,unk*
+field ::= S<num>:<name>,val | L<num>:<name>,<n>,val* | P<num>:<name>,<n>,(val,val)*
+unk   ::= <fnum>:<hex>
+F     ::= n | pi | mi | nz | <int>/<k>            (int / 2^k)
+top   ::= nil | val
+```
+Comparer tokens:
+```
+atom  ::= fa_<F>_<F> | tw_<int> | dw_<int> | dp_<F>
+vspec ::= atom | VA(atom+...) | VO(atom+...)
+mspec ::= E[vspec;...] | MA{E[..]|E[..]...} | MO{...} | none
+```
+-/
+namespace ScVerif.C16
+open ScVerif.Line
+
+def parseF? (s : String) : Option F :=
+  if s = "n" then some .nan
+  else if s = "pi" then some (.inf false)
+  else if s = "mi" then some (.inf true)
+  else if s = "nz" then some (.fin 0 true)
+  else match s.splitOn "/" with
+    | [a, k] => do
+      let n ← parseInt? a
+      let e ← parseNat? k
+      pure (.fin ((n : Rat) / ((2 ^ e : Nat) : Rat)) false)
+    | _ => none
+
+def parseScalar? (a : String) : Option Scalar :=
+  let body := (a.drop 1).toString
+  match a.front with
+  | 'b' => if body = "0" then some (.bool false) else if body = "1" then some (.bool true) else none
+  | 'e' => (parseInt? body).map .enum
+  | 'i' => (parseInt? body).map .int
+  | 'u' => (parseNat? body).map .uint
+  | 'f' => (parseF? body).map .float
+  | 's' => some (.str body)
+  | 'y' => some (.bytes body)
+  | _ => none
+
+def parseFD? (s : String) : Option FD :=
+  match s.splitOn ":" with
+  | [a, b] => (parseNat? a).map (fun n => ⟨n, b⟩)
+  | _ => none
+
+def parseUnk? (s : String) : Option (Nat × String) :=
+  match s.splitOn ":" with
+  | [a, b] => (parseNat? a).map (fun n => (n, b))
+  | _ => none
+
+mutual
+  partial def parseVal (atoms : List String) : Option (Val × List String) :=
+    match atoms with
+    | [] => none
+    | a :: rest =>
+      if a = "M0" || a = "M1" then
+        match rest with
+        | ty :: n :: rest => do
+          let n ← parseNat? n
+          let (fs, rest) ← parseFields n rest
+          match rest with
+          | m :: rest => do
+            let m ← parseNat? m
+            if rest.length < m then none
+            let us ← (rest.take m).mapM parseUnk?
+            pure (.msg ty (a = "M1") (Fields.ofList fs) us, rest.drop m)
+          | [] => none
+        | _ => none
+      else (parseScalar? a).map (fun s => (.sc s, rest))
+  partial def parseFields (n : Nat) (atoms : List String) : Option (List (FD × FVal) × List String) :=
+    if n = 0 then some ([], atoms) else
+    match atoms with
+    | [] => none
+    | a :: rest => do
+      let fd ← parseFD? ((a.drop 1).toString)
+      let (fv, rest) ← (match a.front with
+        | 'S' => do
+          let (v, rest) ← parseVal rest
+          pure (FVal.one v, rest)
+        | 'L' => (match rest with
+          | k :: rest => do
+            let k ← parseNat? k
+            let (vs, rest) ← parseVals k rest
+            pure (FVal.list (Vals.ofList vs), rest)
+          | [] => none)
+        | 'P' => (match rest with
+          | k :: rest => do
+            let k ← parseNat? k
+            let (es, rest) ← parseEntries k rest
+            pure (FVal.map (Entries.ofList es), rest)
+          | [] => none)
+        | _ => none)
+      let (more, rest) ← parseFields (n - 1) rest
+      pure ((fd, fv) :: more, rest)
+  partial def parseVals (n : Nat) (atoms : List String) : Option (List Val × List String) :=
+    if n = 0 then some ([], atoms) else do
+      let (v, rest) ← parseVal atoms
+      let (more, rest) ← parseVals (n - 1) rest
+      pure (v :: more, rest)
+  partial def parseEntries (n : Nat) (atoms : List String) : Option (List (Scalar × Val) × List String) :=
+    if n = 0 then some ([], atoms) else do
+      let (k, rest) ← parseVal atoms
+      let key ← (match k with | .sc s => some s | _ => none)
+      let (v, rest) ← parseVal rest
+      let (more, rest) ← parseEntries (n - 1) rest
+      pure ((key, v) :: more, rest)
+end
+
+def parseTree? (s : String) : Option Val :=
+  match parseVal (s.splitOn ",") with
+  | some (v, []) => some v
+  | _ => none
+
+def parseTop? (s : String) : Option Top :=
+  if s = "nil" then some none else (parseTree? s).map some
+
+def parseAtom? (s : String) : Option VCmp :=
+  match s.splitOn "_" with
+  | ["fa", a, b] => do
+    let fr ← parseF? a
+    let mg ← parseF? b
+    pure (floatValueApprox fr mg)
+  | ["tw", d] => (parseInt? d).map timeValueWithin
+  | ["dw", d] => (parseInt? d).map durationValueWithin
+  | ["dp", p] => (parseF? p).map durationValueWithinP
+  | _ => none
+
+def splitNonEmpty (s : String) (sep : String) : List String :=
+  if s = "" then [] else s.splitOn sep
+
+def inner (s : String) (pre : Nat) : String := ((s.drop pre).dropEnd 1).toString
+
+def parseVSpec? (s : String) : Option VCmp :=
+  if s.startsWith "VA(" && s.endsWith ")" then
+    ((splitNonEmpty (inner s 3) "+").mapM parseAtom?).map valueAnd
+  else if s.startsWith "VO(" && s.endsWith ")" then
+    ((splitNonEmpty (inner s 3) "+").mapM parseAtom?).map valueOr
+  else parseAtom? s
+
+def parseE? (s : String) : Option MCmp :=
+  if s.startsWith "E[" && s.endsWith "]" then
+    ((splitNonEmpty (inner s 2) ";").mapM parseVSpec?).map equal
+  else none
+
+def parseMSpec? (s : String) : Option MCmp :=
+  if s.startsWith "MA{" && s.endsWith "}" then
+    ((splitNonEmpty (inner s 3) "|").mapM parseE?).map mAnd
+  else if s.startsWith "MO{" && s.endsWith "}" then
+    ((splitNonEmpty (inner s 3) "|").mapM parseE?).map mOr
+  else parseE? s
+
+def parseOptMSpec? (s : String) : Option (Option MCmp) :=
+  if s = "none" then some none else (parseMSpec? s).map some
+
+/-- Read-mask filter of the closed family used by the tie: `all`, or `k<n1>.<n2>...` keeping only the
+top-level fields with these numbers (and dropping unknown fields, as fmutils.Filter does not touch them:
+they are kept). -/
+def keepTop (nums : List Nat) : Val → Val
+  | .msg ty v fs u => .msg ty v (Fields.ofList (fs.toList.filter (fun p => nums.contains p.1.num))) u
+  | x => x
+
+def parseFilter? (s : String) : Option (Val → Val) :=
+  if s = "all" then some id
+  else if s.startsWith "k" then
+    ((splitNonEmpty ((s.drop 1).toString) ".").mapM parseNat?).map keepTop
+  else none
+
+def showBits (bs : List Bool) : String := String.join (bs.map (fun b => if b then "1" else "0"))
+
+def pairUp : List Top → Option (List CEvent)
+  | [] => some []
+  | a :: b :: rest => (pairUp rest).map (fun r => ⟨a, b⟩ :: r)
+  | _ => none
+
+def handle? (toks : List String) : Option String :=
+  match toks with
+  | ["cmp", m, x, y] => do
+    let e ← parseMSpec? m
+    let x ← parseTop? x
+    let y ← parseTop? y
+    pure (showBool (e x y))
+  | ["vcmp", v, x, y] => do
+    let c ← parseVSpec? v
+    let x ← parseTree? x
+    let y ← parseTree? y
+    let r := c x y
+    pure (showBool r.1 ++ "," ++ showBool r.2)
+  | "vpull" :: m :: f :: cur :: evs => do
+    let e ← parseOptMSpec? m
+    let flt ← parseFilter? f
+    let cur ← parseTop? cur
+    let evs ← evs.mapM parseTree?
+    pure ("d=" ++ showBits ((valuePull e flt cur evs).map (·.delivered)))
+  | "cpull" :: m :: f :: evs => do
+    let e ← parseOptMSpec? m
+    let flt ← parseFilter? f
+    let tops ← evs.mapM parseTop?
+    let ces ← pairUp tops
+    pure ("d=" ++ showBits ((collPullLoop e flt ces).map (·.delivered)))
+  | _ => none
+
+def handle (toks : List String) : String :=
+  match handle? toks with
+  | some r => r
+  | none => "!bad-op"
 
 end ScVerif.C16
